@@ -8,7 +8,7 @@ import re
 import traceback
 from typing import Dict, List, Optional, Set, Tuple
 
-from . import common, gen_ref, pipe
+from . import common, gen_ref, pipe, graph_stages
 
 CLS = {'SNV': 'S', 'RNAEditingSite': 'S', 'INDEL': 'I', 'Deletion': 'D', 'Insertion': 'O',
        'Substitution': 'O'}
@@ -191,7 +191,12 @@ def cv_worker(job):
         kw = default_kw(rng, opts.get('vary', True), opts.get('exception'), opts.get('enzymes'))
         kw.update(opts.get('kw', {}))
         canon = pipe.canonical_pool(case, **kw)
-        run = gen_ref.run_call_variant(case, tag='cv', **kw)
+        store: list = []
+        if opts.get('stages'):
+            with graph_stages.capture(store):
+                run = gen_ref.run_call_variant(case, tag='cv', **kw)
+        else:
+            run = gen_ref.run_call_variant(case, tag='cv', **kw)
         txs = tx_inputs(case, anno, genome)
         desc = {'seed': seed, 'kw': kw, 'n_records': len(recs)}
         out['desc'] = desc
@@ -221,6 +226,14 @@ def cv_worker(job):
             return out
         out['line_A'] = la
         out['line_B'] = spec_line(tx, kw, canon, idmap, None) if exc else None
+        if opts.get('stages'):
+            # Layer G: the graphs the real run built, for the checkpoint predicates
+            rs = [r for r in store if 'tvg1' in r.stages and r.gid == tx_id]
+            if len(rs) == 1:
+                out['cp'] = graph_stages.cp_lines(rs[0], tx_fields(tx), var_field(tx, dict(idmap)),
+                                                  dict(idmap), kw['cleavage_rule'], exc)
+            else:
+                out['stats']['stage_dumps_%d' % len(rs)] = 1
         out['real'] = sorted(run.fasta.keys())
         out['stats']['runs'] = 1
         out['stats']['real_peptides'] = len(run.fasta)
